@@ -85,6 +85,8 @@ class GBS(Gaussian):
 
         # there should be only Fock measurements in B
         measured = set()
+        select = {}
+        dark_counts = {}
         for cmd in B:
             if not isinstance(cmd.op, ops.MeasureFock):
                 raise CircuitError("The Fock measurements are not consecutive.")
@@ -95,6 +97,24 @@ class GBS(Gaussian):
                 raise CircuitError("Measuring the same mode more than once.")
             measured |= temp
 
+            # the post-selection values and dark counts belong to the measured modes
+            if cmd.op.select is not None:
+                select.update(zip(cmd.reg, cmd.op.select))
+            if cmd.op.dark_counts is not None:
+                dark_counts.update(zip(cmd.reg, cmd.op.dark_counts))
+
+        measured = sorted(list(measured), key=lambda x: x.ind)
+
+        if select and (dark_counts or len(select) != len(measured)):
+            raise CircuitError(
+                "Fock measurements with post-selection on a part of the measured modes, or together "
+                "with dark counts, cannot be combined into a single measurement."
+            )
+
         # replace B with a single Fock measurement
-        B = [Command(ops.MeasureFock(), sorted(list(measured), key=lambda x: x.ind))]
+        collected = ops.MeasureFock(
+            select=[select[r] for r in measured] if select else None,
+            dark_counts=[dark_counts.get(r, 0) for r in measured] if dark_counts else None,
+        )
+        B = [Command(collected, measured)]
         return super().compile(A + B, registers)
